@@ -16,6 +16,9 @@ type zzPeerConn struct {
 
 func (c *zzPeerConn) RemoteAddr() net.Addr { return c.remote }
 
+// the proxy's own end of the connection: a private (trusted-range) address, as behind a load balancer
+func (c *zzPeerConn) LocalAddr() net.Addr { return &net.TCPAddr{IP: net.IPv4(10, 0, 0, 1), Port: 25565} }
+
 // The PROXY header policy chosen for a connection is USE exactly for peers inside the trusted
 // networks and REJECT for everybody else (a header from such a peer then fails the connection, a peer
 // without header keeps its address); a wrapper without trusted networks rejects from everyone.
